@@ -251,6 +251,10 @@ initforrule	:
 			trailcnt = headcnt = rulelen = 0;
 			current_state_type = STATE_NORMAL;
 			previous_continued_action = continued_action;
+			/* finish_rule() of a rule ending in '$' runs before the
+			 * scanner has seen that rule's action: it must not see
+			 * the previous rule's '|' */
+			continued_action = false;
 			in_rule = true;
 
 			new_rule();
